@@ -158,6 +158,19 @@ def generate(repo, out):
     sb2 = body_after(asm, r"Matrix\s+SurfSourceMat\s*\(\s*const\s+Geometry&\s*geo\s*,\s*Mesh&\s*source_mesh\s*,\s*const\s+Integrator&\s*integrator\s*\)\s*\{")
     marks = sb2 is not None and "source_mesh.outermost()=true;source_mesh.current_barrier()=true;" in norm(sb2)
     if not marks: pr.append("SurfSourceMat: the statements marking the source mesh were not found")
+    # ---- reader registries: create() hands out a clone of the registered prototype, clone() makes a new reader
+    cloned = True
+    gio = norm(rd("OpenMEEG/include/GeometryIO.h")); mio_h = norm(rd("OpenMEEG/include/MeshIO.h"))
+    if "staticGeometryIO*create(conststd::string&filename){conststd::string&extension=tolower(getFilenameExtension(filename));try{returnregistery.at(extension)->clone(filename);}catch(std::out_of_range&){throwUnknownFileSuffix(extension);}}" not in gio:
+        pr.append("GeometryIO::create is not `return registery.at(extension)->clone(filename);`"); cloned = False
+    if "staticMeshIO*create(conststd::string&filename){conststd::string&extension=tolower(getFilenameExtension(filename));returnregistery.at(extension)->clone(filename);}" not in mio_h:
+        pr.append("MeshIO::create is not `return registery.at(extension)->clone(filename);`"); cloned = False
+    import glob
+    for f in sorted(glob.glob(os.path.join(repo, "OpenMEEG/include/GeometryIOs/*.h")) + glob.glob(os.path.join(repo, "OpenMEEG/include/MeshIOs/*.h"))):
+        t = norm(strip(open(f).read()))
+        for m in re.finditer(r"(GeometryIO|MeshIO)\*clone\(conststd::string&filename\)constoverride\{([^}]*)\}", t):
+            if not re.fullmatch(r"returnnew\w+\(filename\);", m.group(2)):
+                pr.append("%s: clone() does not return a new reader (`%s`)" % (os.path.basename(f), m.group(2))); cloned = False
     # ---- declared const-ness of the computations of the compute machine (operands: 0 geo 1 H 2 Hinv 3 dip 4 DSM 5 v2eeg 6 h2meg 7 ds2meg 8 rhsM 9 rhsV 10 eeg 11 meg)
     sym = norm(rd("OpenMEEGMaths/include/symmatrix.h")); gain = norm(rd("OpenMEEG/include/gain.h")); asm_h = norm(rd("OpenMEEG/include/assemble.h"))
     CAT = [("HeadMat", asm_h, "SymMatrixHeadMat(constGeometry&geo,", [0]),
@@ -191,9 +204,10 @@ Definition code_geometry_clear_resets_derived : bool := %s.
 Definition code_sensors_load_resets : bool := %s.
 Definition code_mesh_cfg : mcfg := {| clear_flags := %s; clear_private_geometry := %s |}.
 Definition code_surfsource_marks_source : bool := %s.
+Definition code_readers_are_cloned : bool := %s.
 (* (operands read, operands declared non-const) of every computation of the compute machine, from the signatures *)
 Definition code_compute_catalogue : list (list nat * list nat) := [
 %s ].
-""" % (b(consume_before_open), b(tag_at_gcount), b(whole_tag), b(get_resets), b(shape_ok), b(sparse_clears), b(geom_fixed), b(sens_fixed), b(mesh_flags), b(mesh_geom), b(marks), ";\n".join(cat_lines))
+""" % (b(consume_before_open), b(tag_at_gcount), b(whole_tag), b(get_resets), b(shape_ok), b(sparse_clears), b(geom_fixed), b(sens_fixed), b(mesh_flags), b(mesh_geom), b(marks), b(cloned), ";\n".join(cat_lines))
     gencoq.put(os.path.join(out, "GenC17.v"), txt)
     return pr
